@@ -203,6 +203,7 @@ def backlog_source(prog, R, sl, bid, operand, sources, post_targets, depth=0):
 
 
 @rule("C03", "R03.4", "a message re-enters the backlog only from a post or after its delivery left the outstanding set", floor=3)
+@rule("C02", "R03.4", "a message re-enters the backlog only from a post or after its delivery left the outstanding set", floor=3)
 def r03_4(prog, out):
     R = roles(prog)
     sl = Slicer(prog)
